@@ -4,6 +4,7 @@ Full statements: `ZV/Props/C07Statements.lean`; a statement counts as proved onl
 of exactly that proposition appears below.
 -/
 import ZV.Props.C07Statements
+import ZV.Proofs.Scope
 
 namespace ZV.Props.C07
 open ZV.ZCore
@@ -18,6 +19,22 @@ theorem binder_does_not_capture (x y : Nat) (v : V) (h : x ≠ y) (hv : (canonV 
   obtain ⟨v', hv'⟩ := Option.isSome_iff_exists.mp hv
   have : (x == y) = false := by simpa using h
   simp [canon, canonC, canonV, Ren.get?, hv', List.find?, this]
+
+/-- Acceptance does not depend on the choice of bound names. -/
+theorem canon_acceptance : Statement.canon_acceptance := ZV.ZCore.canon_acceptance_pf
+
+/-- Behaviour (exit code or trap, output; also going wrong) does not depend on the choice of bound
+names, at every fuel. -/
+theorem canon_behaviour : Statement.canon_behaviour := ZV.ZCore.canon_behaviour_pf
+
+/-- Two programs with the same canonical form are accepted together and behave alike. -/
+theorem alpha_invariance : Statement.alpha_invariance := ZV.ZCore.alpha_invariance_pf
+
+/-- The canonical form is canonical. -/
+theorem canon_idempotent : Statement.canon_idempotent := ZV.ZCore.canon_idempotent_pf
+
+/-- An accepted program is closed: it has a canonical form. -/
+theorem accepted_is_closed : Statement.accepted_is_closed := ZV.ZCore.accepted_is_closed_pf
 
 namespace Demo
 /-- non-vacuity: two namings of `let a = () in let b = () in ret a` - one of them shadowing -
